@@ -1,3 +1,479 @@
 import Rscp.Spec.JsonReq
 import Rscp.Props.C14
 import Rscp.Lemmas.Client
+import Rscp.Lemmas.Encode
+/-
+Helper lemmas for C12 (`Props/C12.lean`): the JSON request parsers of `Model/JsonIn.lean` against the writing
+relation `Spec/JsonReq.lean`.
+-/
+namespace Rscp.Lemmas.JsonIn
+open Rscp Rscp.Model Rscp.Spec
+
+theorem fromUTF8_strBytes (s : String) : String.fromUTF8? (ByteArray.mk (strBytes s).toArray) = some s := by
+  have h : ByteArray.mk (strBytes s).toArray = s.toByteArray := by
+    unfold strBytes
+    rw [Lemmas.Vocab.byteArray_toList, String.toUTF8_eq_toByteArray, Array.toArray_toList]
+  rw [h, String.fromUTF8?, dif_pos s.isValidUTF8]
+  rfl
+
+theorem tagOfJ_of_writes (t : Nat) (j : J) (h : WritesTag t j) : tagOfJ j = some t ∧ j ≠ .null := by
+  cases h with
+  | name s h =>
+    refine ⟨?_, by intro h; cases h⟩
+    simp only [tagOfJ, fromUTF8_strBytes, tagUnmarshalStr, h]
+  | number h =>
+    refine ⟨?_, by intro h; cases h⟩
+    have h' : (t : Int) < 4294967296 := by omega
+    simp [tagOfJ, h']
+  | decimal h hu =>
+    refine ⟨?_, by intro h; cases h⟩
+    simp only [tagOfJ, fromUTF8_strBytes, Lemmas.Vocab.json_tag_roundtrip_unknown t h]
+
+theorem dataTypeOfJ_of_writes (d : Nat) (j : J) (h : WritesType d j) : dataTypeOfJ j = some d := by
+  obtain ⟨s, h1, h2, rfl⟩ := h
+  simp only [dataTypeOfJ, fromUTF8_strBytes, h1, h2, if_true]
+
+
+theorem nek_none : newEmptyKind Gen.C.None = .nil := by decide
+theorem nek_time : newEmptyKind Gen.C.Timestamp = .time := by decide
+theorem nek_bytes : newEmptyKind Gen.C.ByteArray = .bytes := by decide
+theorem nek_msgs : newEmptyKind Gen.C.Container = .msgs := by decide
+
+theorem newNumber_int (lib : JsonLib) (dt : Nat) (k : Kind) (d : Dec)
+    (hk : newEmptyKind dt = k) (hw : k.width.isSome) (hf : k ≠ .f32 ∧ k ≠ .f64) :
+    newNumber lib dt d = match d.toInt? with
+      | some n => if k.inRange n then some (.num k n) else none
+      | none => none := by
+  unfold newNumber
+  rw [hk]
+  cases k <;> first | rfl | (simp [Kind.width] at hw; done) | (simp at hf; done)
+
+theorem byteArrayOfJ_map (bs : List Byte) :
+    byteArrayOfJ (bs.map fun b => J.num { m := b.toNat, e := 0, plain := true }) = some bs := by
+  induction bs with
+  | nil => rfl
+  | cons b bs ih =>
+    have hb := b.toNat_lt
+    have h1 : (b.toNat : Int) < 256 := by omega
+    simp [byteArrayOfJ, Dec.toInt?, ih, h1]
+
+theorem leaf_read (lib : JsonLib) (dt : Nat) (v : Val) (j : J) (h : WritesLeaf lib dt v j)
+    (hn : dt ≠ Gen.C.None) : leafValueOfJ lib dt j = some v := by
+  cases h with
+  | bool b h =>
+    have h1 : dt ≠ Gen.C.Timestamp := by intro e; subst e; rw [nek_time] at h; cases h
+    have h2 : dt ≠ Gen.C.ByteArray := by intro e; subst e; rw [nek_bytes] at h; cases h
+    simp [leafValueOfJ, hn, h1, h2, genericVal]
+  | int k n d hk hw hf hr hd =>
+    have h1 : dt ≠ Gen.C.Timestamp := by intro e; subst e; rw [nek_time] at hk; subst hk; simp [Kind.width] at hw
+    have h2 : dt ≠ Gen.C.ByteArray := by intro e; subst e; rw [nek_bytes] at hk; subst hk; simp [Kind.width] at hw
+    simp only [leafValueOfJ, hn, h1, h2, if_false]
+    rw [newNumber_int lib dt k d hk hw hf, show d.toInt? = some n from hd]
+    simp [hr]
+  | f32 d bits hk h =>
+    have h1 : dt ≠ Gen.C.Timestamp := by intro e; subst e; rw [nek_time] at hk; cases hk
+    have h2 : dt ≠ Gen.C.ByteArray := by intro e; subst e; rw [nek_bytes] at hk; cases hk
+    simp [leafValueOfJ, hn, h1, h2, newNumber, hk, h]
+  | f64 d bits hk h =>
+    have h1 : dt ≠ Gen.C.Timestamp := by intro e; subst e; rw [nek_time] at hk; cases hk
+    have h2 : dt ≠ Gen.C.ByteArray := by intro e; subst e; rw [nek_bytes] at hk; cases hk
+    simp [leafValueOfJ, hn, h1, h2, newNumber, hk, h]
+  | str s h =>
+    have h1 : dt ≠ Gen.C.Timestamp := by intro e; subst e; rw [nek_time] at h; cases h
+    have h2 : dt ≠ Gen.C.ByteArray := by intro e; subst e; rw [nek_bytes] at h; cases h
+    simp [leafValueOfJ, hn, h1, h2, genericVal]
+  | bytes bs h =>
+    subst h
+    have h1 : Gen.C.ByteArray ≠ Gen.C.Timestamp := by decide
+    simp only [leafValueOfJ, hn, h1, if_false, if_true, byteArrayOfJ_map]
+    rfl
+  | time txt s ns h hp =>
+    subst h
+    simp [leafValueOfJ, hn, hp]
+
+
+theorem mem_sizeFields (kv : List Byte × J) (kvs : List (List Byte × J)) (h : kv ∈ kvs) :
+    kv.2.size ≤ J.sizeFields kvs := by
+  induction kvs with
+  | nil => cases h
+  | cons a r ih =>
+    obtain ⟨a1, a2⟩ := a
+    simp only [J.sizeFields]
+    cases h with
+    | head => simp
+    | tail _ h => have := ih h; omega
+
+theorem fieldOf_size (n : List Byte) (kvs : List (List Byte × J)) (v : J) (h : fieldOf n kvs = some v) :
+    v.size ≤ J.sizeFields kvs := by
+  unfold fieldOf at h
+  cases hf : kvs.reverse.find? (fun kv => kv.1.map lowerByte = n.map lowerByte) with
+  | none => rw [hf] at h; cases h
+  | some kv =>
+    rw [hf] at h
+    have hm := List.mem_of_find?_eq_some hf
+    have hm' : kv ∈ kvs := by simpa using hm
+    have := mem_sizeFields kv kvs hm'
+    cases h
+    exact this
+
+theorem msgOfObject_step (lib : JsonLib) (f : Nat) (kvs : List (List Byte × J)) (tj : J) (t d : Nat) (v : Val)
+    (hT : fieldOf (strBytes "tag") kvs = some tj) (hnull : tj ≠ .null) (ht : tagOfJ tj = some t)
+    (hD : (fieldOf (strBytes "datatype") kvs = none ∧ d = tagDataType t) ∨
+      (∃ dj, fieldOf (strBytes "datatype") kvs = some dj ∧ WritesType d dj))
+    (hV : (d ≠ Gen.C.Container ∧ ((fieldOf (strBytes "value") kvs = none ∧ v = .nil) ∨
+        (∃ vj, fieldOf (strBytes "value") kvs = some vj ∧ leafValueOfJ lib d vj = some v))) ∨
+      (d = Gen.C.Container ∧ ∃ xs ms, fieldOf (strBytes "value") kvs = some (.arr xs) ∧
+        msgsOfObjects lib f xs = .ok ms ∧ v = .msgs ms))
+    (hval : validateMsg (.mk t d v) = .ok ()) :
+    msgOfObject lib (f+1) (.obj kvs) = .ok (.mk t d v) := by
+  unfold strBytes at hT hD hV
+  rw [msgOfObject]
+  simp only [hT]
+  cases tj with
+  | null => exact absurd rfl hnull
+  | _ =>
+    simp only [ht]
+    rcases hD with ⟨h1, h2⟩ | ⟨dj, h1, s, h2, h3, rfl⟩
+    · subst h2
+      simp only [h1]
+      rcases hV with ⟨hc, ⟨h1, h2⟩ | ⟨vj, h1, h2⟩⟩ | ⟨hc, xs, ms, h1, h2, h3⟩
+      · subst h2; simp only [hc, if_false, h1, hval]
+      · simp only [hc, if_false, h1, h2, outcomeOfOpt, hval]
+      · subst h3; simp only [hc, if_true, h1, h2]; rw [← hc, hval]
+    · simp only [h1, fromUTF8_strBytes, h2, outcomeOfOpt]
+      rcases hV with ⟨hc, ⟨h1, h2⟩ | ⟨vj, h1, h2⟩⟩ | ⟨hc, xs, ms, h1, h2, h3⟩
+      · subst h2; simp only [hc, if_false, h1, hval]
+      · simp only [hc, if_false, h1, h2, hval]
+      · subst h3; simp only [hc, if_true, h1, h2]; rw [← hc, hval]
+
+
+theorem writes_true_obj (lib : JsonLib) (m : Msg) (j : J) (h : Writes lib true m j) : ∃ kvs, j = .obj kvs := by
+  cases h with
+  | objectNoValue => exact ⟨_, rfl⟩
+  | objectValue => exact ⟨_, rfl⟩
+
+/-- the object notation, at every depth: fuel `4·size` for one object, `4·size + 1` for a list -/
+theorem object_read (lib : JsonLib) : ∀ f : Nat,
+    (∀ o m kvs, Writes lib o m (.obj kvs) → validateMsg m = .ok () → 4 * (J.obj kvs).size ≤ f →
+      msgOfObject lib f (.obj kvs) = .ok m) ∧
+    (∀ ms js, WritesList lib true ms js → validateMsgs ms = .ok () → 4 * J.sizeList js + 1 ≤ f →
+      msgsOfObjects lib f js = .ok ms) := by
+  intro f
+  induction f with
+  | zero =>
+    constructor
+    · intro o m kvs _ _ hf; simp only [J.size] at hf; omega
+    · intro ms js _ _ hf; omega
+  | succ f ih =>
+    obtain ⟨ih1, ih2⟩ := ih
+    constructor
+    · intro o m kvs h hv hf
+      simp only [J.size] at hf
+      match h with
+      | .bare t _ ht => cases ht
+      | .objectNoValue _ t d _ tj ht hT hD hV hc =>
+        obtain ⟨ht1, ht2⟩ := tagOfJ_of_writes t tj ht
+        exact msgOfObject_step lib f kvs tj t d .nil hT ht2 ht1 hD (Or.inl ⟨hc, Or.inl ⟨hV, rfl⟩⟩) hv
+      | .objectValue _ t d v _ tj vj ht hT hD hV hw =>
+        obtain ⟨ht1, ht2⟩ := tagOfJ_of_writes t tj ht
+        refine msgOfObject_step lib f kvs tj t d v hT ht2 ht1 hD ?_ hv
+        match hw with
+        | .leaf _ _ _ _ hc hn hl =>
+          exact Or.inl ⟨hc, Or.inr ⟨vj, hV, leaf_read lib d v vj hl hn⟩⟩
+        | .container _ _ ms js hc hl =>
+          refine Or.inr ⟨hc, js, ms, hV, ?_, rfl⟩
+          have hsz := fieldOf_size _ _ _ hV
+          simp only [J.size] at hsz
+          exact ih2 ms js hl ((validateMsg_inv t d _ hv).2.2 ms rfl) (by omega)
+    · intro ms js h hv hf
+      match h with
+      | .nil _ => rfl
+      | .cons _ m ms j js h ht =>
+        obtain ⟨kvs, rfl⟩ := writes_true_obj lib m j h
+        obtain ⟨hv1, hv2⟩ := validateMsgs_cons m ms hv
+        simp only [J.sizeList] at hf
+        have hj : 1 ≤ (J.obj kvs).size := by simp only [J.size]; omega
+        rw [msgsOfObjects, ih1 true m kvs h hv1 (by omega), ih2 ms js ht hv2 (by omega)]
+
+theorem J.size_pos (j : J) : 1 ≤ j.size := by
+  cases j <;> simp only [J.size] <;> omega
+
+theorem requestOfJ_bare (lib : JsonLib) (f : Nat) (t : Nat) (j : J) (h : WritesTag t j) :
+    requestOfJ lib (f+1) j = .ok (.mk t (tagDataType t) .nil) := by
+  have ht := (tagOfJ_of_writes t j h).1
+  cases h with
+  | name s h => rw [requestOfJ]; simp only [ht]
+  | number h =>
+    rw [requestOfJ]
+    have : ¬ ((t : Int) < 0) := by omega
+    simp only [ht, this, if_false]
+  | decimal h hu => rw [requestOfJ]; simp only [ht]
+
+theorem request_read (lib : JsonLib) : ∀ f : Nat,
+    (∀ o m j, Writes lib o m j → validateMsg m = .ok () → 4 * j.size + 1 ≤ f → requestOfJ lib f j = .ok m) ∧
+    (∀ o ms js, WritesList lib o ms js → validateMsgs ms = .ok () → 4 * J.sizeList js + 2 ≤ f →
+      requestListOfJ lib f js = .ok ms) := by
+  intro f
+  induction f using Nat.strongRecOn with
+  | ind f ih =>
+    have hval : ∀ g, g < f → ∀ o dt v vj t, WritesValue lib o dt v vj → validateMsg (.mk t dt v) = .ok () →
+        4 * vj.size + 3 ≤ g → valueOfJ lib g dt vj = .ok v := by
+      intro g hg o dt v vj t hw hv hsz
+      obtain ⟨g, rfl⟩ : ∃ g', g = g' + 1 := ⟨g - 1, by omega⟩
+      match hw with
+      | .leaf _ _ _ _ hc hn hl =>
+        rw [valueOfJ]; simp only [hc, if_false, leaf_read lib dt v vj hl hn, outcomeOfOpt]
+      | .container _ _ ms js hc hl =>
+        simp only [J.size] at hsz
+        obtain ⟨g, rfl⟩ : ∃ g', g = g' + 1 := ⟨g - 1, by omega⟩
+        rw [valueOfJ]; simp only [hc, if_true]
+        rw [requestsOfJ]
+        rw [(ih g (by omega)).2 _ ms js hl ((validateMsg_inv t dt _ hv).2.2 ms rfl) (by omega)]
+    constructor
+    · intro o m j h hv hf
+      have hp := J.size_pos j
+      obtain ⟨g, rfl⟩ : ∃ g', f = g' + 1 := ⟨f - 1, by omega⟩
+      match h with
+      | .bare t _ ht => exact requestOfJ_bare lib g t j ht
+      | .tuple1 t tj ht =>
+        rw [requestOfJ]; simp only [(tagOfJ_of_writes t tj ht).1]
+      | .tuple2t t d tj dj ht hd =>
+        rw [requestOfJ]; simp only [(tagOfJ_of_writes t tj ht).1, dataTypeOfJ_of_writes d dj hd]
+      | .tuple2v t v tj vj ht hw hn =>
+        have h1 := J.size_pos tj
+        simp only [J.size, J.sizeList] at hf
+        rw [requestOfJ]; simp only [(tagOfJ_of_writes t tj ht).1, hn]
+        rw [hval g (by omega) _ _ _ _ t hw hv (by omega)]
+      | .tuple3 t d v tj dj vj ht hd hw =>
+        have h1 := J.size_pos tj
+        simp only [J.size, J.sizeList] at hf
+        rw [requestOfJ]; simp only [(tagOfJ_of_writes t tj ht).1, dataTypeOfJ_of_writes d dj hd]
+        rw [hval g (by omega) _ _ _ _ t hw hv (by omega)]
+      | .objectNoValue _ t d kvs tj ht hT hD hV hc =>
+        simp only [requestOfJ]
+        exact (object_read lib g).1 o _ kvs (.objectNoValue o t d kvs tj ht hT hD hV hc) hv (by omega)
+      | .objectValue _ t d v kvs tj vj ht hT hD hV hw =>
+        simp only [requestOfJ]
+        exact (object_read lib g).1 o _ kvs (.objectValue o t d v kvs tj vj ht hT hD hV hw) hv (by omega)
+    · intro o ms js h hv hf
+      obtain ⟨g, rfl⟩ : ∃ g', f = g' + 1 := ⟨f - 1, by omega⟩
+      match h with
+      | .nil _ => rfl
+      | .cons _ m ms j js h ht =>
+        obtain ⟨hv1, hv2⟩ := validateMsgs_cons m ms hv
+        simp only [J.sizeList] at hf
+        have hj := J.size_pos j
+        rw [requestListOfJ, (ih g (by omega)).1 o m j h hv1 (by omega), (ih g (by omega)).2 o ms js ht hv2 (by omega)]
+
+/-! ## totality -/
+
+theorem validateMsg_leaf_ne_panic (t dt : Nat) (v : Val) (hc : dt ≠ Gen.C.Container) :
+    validateMsg (.mk t dt v) ≠ .panic := by
+  intro h
+  cases v <;> simp only [validateMsg, hc, if_false] at h <;> (repeat' split at h) <;> cases h
+
+theorem validateMsg_msgs_ne_panic (t dt : Nat) (ms : List Msg) (hv : validateMsgs ms = .ok ()) :
+    validateMsg (.mk t dt (.msgs ms)) ≠ .panic := by
+  intro h
+  simp only [validateMsg, hv] at h
+  (repeat' split at h) <;> cases h
+
+theorem msgOfObject_valid (lib : JsonLib) (f : Nat) (j : J) (m : Msg) (h : msgOfObject lib f j = .ok m) :
+    validateMsg m = .ok () := by
+  cases f with
+  | zero => rw [msgOfObject] at h; cases h
+  | succ f =>
+    cases j with
+    | obj kvs =>
+      simp only [msgOfObject] at h
+      repeat' split at h
+      all_goals first | (cases h; done) | skip
+      next h1 _ _ h2 => cases h; exact h2
+    | _ => simp only [msgOfObject] at h; cases h
+
+
+theorem msgsOfObjects_valid (lib : JsonLib) : ∀ (f : Nat) (js : List J) (ms : List Msg),
+    msgsOfObjects lib f js = .ok ms → validateMsgs ms = .ok ()
+  | 0, _, _, h => by rw [msgsOfObjects] at h; cases h
+  | f+1, [], ms, h => by rw [msgsOfObjects] at h; cases h; rfl
+  | f+1, j :: js, ms, h => by
+    rw [msgsOfObjects] at h
+    cases h1 : msgOfObject lib f j with
+    | ok m =>
+      cases h2 : msgsOfObjects lib f js with
+      | ok ms' =>
+        simp only [h1, h2] at h
+        cases h
+        simp only [validateMsgs, msgOfObject_valid lib f j m h1]
+        exact msgsOfObjects_valid lib f js ms' h2
+      | err e => simp only [h1, h2] at h; cases h
+      | panic => simp only [h1, h2] at h; cases h
+    | err e => simp only [h1] at h; cases h
+    | panic => simp only [h1] at h; cases h
+
+theorem outcomeOfOpt_ne_panic {α} (x : Option α) : outcomeOfOpt x ≠ .panic := by
+  cases x <;> (intro h; cases h)
+
+theorem object_total (lib : JsonLib) : ∀ f : Nat,
+    (∀ j, 4 * j.size ≤ f → msgOfObject lib f j ≠ .panic) ∧
+    (∀ js, 4 * J.sizeList js + 1 ≤ f → msgsOfObjects lib f js ≠ .panic) := by
+  intro f
+  induction f with
+  | zero =>
+    exact ⟨fun j hf => by have := J.size_pos j; omega, fun js hf => by omega⟩
+  | succ f ih =>
+    obtain ⟨ih1, ih2⟩ := ih
+    constructor
+    · intro j hf h
+      cases j with
+      | obj kvs =>
+        simp only [msgOfObject] at h
+        repeat' split at h
+        all_goals first | (cases h; done) | skip
+        · next hd =>
+          repeat' split at hd
+          all_goals first | (cases hd; done) | exact outcomeOfOpt_ne_panic _ hd
+        · next hvR =>
+          split at hvR
+          · cases hvj : fieldOf "value".toUTF8.toList kvs with
+            | none => simp only [hvj] at hvR; cases hvR
+            | some vj =>
+              cases vj with
+              | arr xs =>
+                have hsz := fieldOf_size _ _ _ hvj
+                simp only [J.size] at hsz hf
+                have := ih2 xs (by omega)
+                cases hm : msgsOfObjects lib f xs with
+                | panic => exact this hm
+                | ok ms => simp only [hvj, hm] at hvR; cases hvR
+                | err e => simp only [hvj, hm] at hvR; cases hvR
+              | _ => simp only [hvj] at hvR; cases hvR
+          · repeat' split at hvR
+            all_goals first | (cases hvR; done) | exact outcomeOfOpt_ne_panic _ hvR
+        · next hvR _ hval =>
+          split at hvR
+          · next hc =>
+            subst hc
+            cases hvj : fieldOf "value".toUTF8.toList kvs with
+            | none => simp only [hvj] at hvR; cases hvR
+            | some vj =>
+              cases vj with
+              | arr xs =>
+                cases hm : msgsOfObjects lib f xs with
+                | ok ms =>
+                  simp only [hvj, hm] at hvR; cases hvR
+                  exact validateMsg_msgs_ne_panic _ _ ms (msgsOfObjects_valid lib f xs ms hm) hval
+                | panic => simp only [hvj, hm] at hvR; cases hvR
+                | err e => simp only [hvj, hm] at hvR; cases hvR
+              | null =>
+                simp only [hvj] at hvR; cases hvR
+                exact validateMsg_msgs_ne_panic _ _ [] rfl hval
+              | _ => simp only [hvj] at hvR; cases hvR
+          · next hc => exact validateMsg_leaf_ne_panic _ _ _ hc hval
+      | _ => simp only [msgOfObject] at h; cases h
+    · intro js hf h
+      cases js with
+      | nil => rw [msgsOfObjects] at h; cases h
+      | cons j js =>
+        simp only [J.sizeList] at hf
+        have hj := J.size_pos j
+        have h1 := ih1 j (by omega)
+        have h2 := ih2 js (by omega)
+        rw [msgsOfObjects] at h
+        cases hm : msgOfObject lib f j with
+        | panic => exact h1 hm
+        | err e => simp only [hm] at h; cases h
+        | ok m =>
+          cases hms : msgsOfObjects lib f js with
+          | panic => exact h2 hms
+          | err e => simp only [hm, hms] at h; cases h
+          | ok ms => simp only [hm, hms] at h; cases h
+
+
+theorem request_total (lib : JsonLib) : ∀ f : Nat,
+    (∀ j, 4 * j.size + 1 ≤ f → requestOfJ lib f j ≠ .panic) ∧
+    (∀ js, 4 * J.sizeList js + 2 ≤ f → requestListOfJ lib f js ≠ .panic) := by
+  intro f
+  induction f using Nat.strongRecOn with
+  | ind f ih =>
+    have hV : ∀ g, g < f → ∀ dt j, 4 * j.size + 3 ≤ g → valueOfJ lib g dt j ≠ .panic := by
+      intro g hg dt j hsz h
+      obtain ⟨g, rfl⟩ : ∃ g', g = g' + 1 := ⟨g - 1, by omega⟩
+      rw [valueOfJ] at h
+      split at h
+      · obtain ⟨g, rfl⟩ : ∃ g', g = g' + 1 := ⟨g - 1, by omega⟩
+        cases j with
+        | arr xs =>
+          simp only [J.size] at hsz
+          have := (ih g (by omega)).2 xs (by omega)
+          rw [requestsOfJ] at h
+          cases hm : requestListOfJ lib g xs with
+          | panic => exact this hm
+          | ok ms => simp only [hm] at h; cases h
+          | err e => simp only [hm] at h; cases h
+        | _ => simp only [requestsOfJ] at h; cases h
+      · exact outcomeOfOpt_ne_panic _ h
+    constructor
+    · intro j hf h
+      have hp := J.size_pos j
+      obtain ⟨g, rfl⟩ : ∃ g', f = g' + 1 := ⟨f - 1, by omega⟩
+      cases j with
+      | arr t =>
+        match t with
+        | [] => rw [requestOfJ] at h; cases h
+        | [tj] => rw [requestOfJ] at h; split at h <;> cases h
+        | [tj, x] =>
+          have h1 := J.size_pos tj
+          simp only [J.size, J.sizeList] at hf
+          rw [requestOfJ] at h
+          repeat' split at h
+          all_goals first | (cases h; done) | (rename_i hm; exact hV g (by omega) _ _ (by omega) hm)
+        | [tj, x, y] =>
+          have h1 := J.size_pos tj
+          have h2 := J.size_pos x
+          simp only [J.size, J.sizeList] at hf
+          rw [requestOfJ] at h
+          repeat' split at h
+          all_goals first | (cases h; done) | (rename_i hm; exact hV g (by omega) _ _ (by omega) hm)
+        | a :: b :: c :: d :: r => simp only [requestOfJ] at h; cases h
+      | str s => rw [requestOfJ] at h; split at h <;> cases h
+      | num d => rw [requestOfJ] at h; split at h; (cases h); split at h <;> cases h
+      | obj kvs =>
+        simp only [requestOfJ] at h
+        exact (object_total lib g).1 _ (by omega) h
+      | null =>
+        simp only [requestOfJ] at h
+        exact (object_total lib g).1 _ (by omega) h
+      | bool b =>
+        simp only [requestOfJ] at h
+        exact (object_total lib g).1 _ (by omega) h
+    · intro js hf h
+      obtain ⟨g, rfl⟩ : ∃ g', f = g' + 1 := ⟨f - 1, by omega⟩
+      cases js with
+      | nil => rw [requestListOfJ] at h; cases h
+      | cons j js =>
+        simp only [J.sizeList] at hf
+        have hj := J.size_pos j
+        have h1 := (ih g (by omega)).1 j (by omega)
+        have h2 := (ih g (by omega)).2 js (by omega)
+        rw [requestListOfJ] at h
+        cases hm : requestOfJ lib g j with
+        | panic => exact h1 hm
+        | err e => simp only [hm] at h; cases h
+        | ok m =>
+          cases hms : requestListOfJ lib g js with
+          | panic => exact h2 hms
+          | err e => simp only [hm, hms] at h; cases h
+          | ok ms => simp only [hm, hms] at h; cases h
+
+theorem requests_total (lib : JsonLib) (j : J) (f : Nat) (hf : 4 * j.size + 2 ≤ f) : requestsOfJ lib f j ≠ .panic := by
+  intro h
+  obtain ⟨g, rfl⟩ : ∃ g', f = g' + 1 := ⟨f - 1, by omega⟩
+  cases j with
+  | arr xs =>
+    rw [requestsOfJ] at h
+    simp only [J.size] at hf
+    exact (request_total lib g).2 xs (by omega) h
+  | _ => simp only [requestsOfJ] at h; cases h
+
+end Rscp.Lemmas.JsonIn
